@@ -2238,6 +2238,217 @@ fn retr_run(out: &mut Out, w: &mut World, nfam: usize, thorough: bool) {
 
 /// the block hash / nonce under which the two fake kernels of `COLLIDING_FEES` have the same short id
 const COLLISION_NONCE: u64 = 7;
+// ---------------------------------------------------------------------------------------------
+// overage: Committed::verify_kernel_sums with a chosen SIGNED overage on real transactions whose
+// blinding part balances (what `fee() as i64` feeds it from 2^63 on cannot be built: 2^23 kernels)
+// ---------------------------------------------------------------------------------------------
+
+fn overage_run(out: &mut Out, rng: &mut Rng, thorough: bool) {
+	use grin_core::core::Committed;
+	global::set_local_chain_type(ChainTypes::AutomatedTesting);
+	let kc = ExtKeychain::from_seed(&rng.bytes(32), true).unwrap();
+	let pb = ProofBuilder::new(&kc);
+	let mut stat: BTreeMap<String, u64> = BTreeMap::new();
+	let n_tx = if thorough { 60 } else { 16 };
+	let big: [u64; 6] = [(1u64 << 63) - 1, 1u64 << 63, (1u64 << 63) + 1, u64::MAX, 1u64 << 62, 60_000_000_000];
+	for t in 0..n_tx {
+		// inputs worth sum_in, outputs worth sum_out, difference chosen: 0, +-1, around 2^63, the reward, random
+		let (vin, vout): (Vec<u64>, Vec<u64>) = match t % 8 {
+			0 => (vec![rng.range(1, 1 << 40)], vec![]),
+			1 => {
+				let v = rng.range(1, 1 << 40);
+				(vec![v], vec![v])
+			}
+			2 => (vec![big[(t / 8) % 6]], vec![rng.range(0, 5)]),
+			3 => (vec![rng.range(0, 5)], vec![big[(t / 8) % 6]]),
+			4 => (vec![u64::MAX, u64::MAX], vec![u64::MAX - 1]),
+			5 => (vec![rng.range(1, 1000)], vec![60_000_000_000 + rng.range(1, 1000)]),
+			6 => (vec![], vec![rng.range(1, 1 << 40)]),
+			_ => (vec![rng.next(), rng.range(0, 9)], vec![rng.next()]),
+		};
+		let mut el: Vec<Box<build::Append<ExtKeychain, ProofBuilder<ExtKeychain>>>> = vec![];
+		for (i, v) in vin.iter().enumerate() {
+			el.push(build::input(*v, ExtKeychain::derive_key_id(3, 11, t as u32, i as u32, 0)));
+		}
+		for (i, v) in vout.iter().enumerate() {
+			el.push(build::output(*v, ExtKeychain::derive_key_id(3, 12, t as u32, i as u32, 0)));
+		}
+		let tx = match build::transaction(KernelFeatures::Plain { fee: FeeFields::new(0, 1).unwrap() }, &el, &kc, &pb) {
+			Ok(t) => t,
+			Err(e) => {
+				out.raw(&format!("#STAT overage: builder refused values in={:?} out={:?}: {:?}", vin, vout, e));
+				continue;
+			}
+		};
+		let sum_in: u128 = vin.iter().map(|x| *x as u128).sum();
+		let sum_out: u128 = vout.iter().map(|x| *x as u128).sum();
+		let delta: i128 = sum_in as i128 - sum_out as i128;
+		let mut ovs: Vec<i64> = vec![0, 1, -1, i64::MAX, i64::MIN, i64::MIN + 1, -60_000_000_000, rng.next() as i64];
+		if delta >= i64::MIN as i128 && delta <= i64::MAX as i128 {
+			let d = delta as i64;
+			ovs.push(d);
+			ovs.push(d.wrapping_neg());
+			ovs.push(d.wrapping_add(1));
+			ovs.push(d.wrapping_sub(1));
+		}
+		for ov in ovs {
+			let r = catch(std::panic::AssertUnwindSafe(|| tx.verify_kernel_sums(ov, tx.offset.clone())));
+			let s = match r {
+				Ok(Ok(_)) => "ok".to_string(),
+				Ok(Err(committed::Error::InvalidValue)) => "err:InvalidValue".to_string(),
+				Ok(Err(committed::Error::KernelSumMismatch)) => "err:KernelSumMismatch".to_string(),
+				Ok(Err(e)) => format!("err:{:?}", e).replace(' ', ""),
+				Err(_) => "panic".to_string(),
+			};
+			let class = if ov == i64::MIN { "i64::MIN" } else if ov == 0 { "zero" } else if ov < 0 { "negative" } else { "positive" };
+			*stat.entry(format!("overage {}: {}", class, s)).or_insert(0) += 1;
+			out.line(&format!("tx ksum {} {} {}", sum_in, sum_out, ov), &s);
+		}
+	}
+	// the cast itself, as Rust computes it
+	for x in [0u64, 1, (1 << 63) - 1, 1 << 63, (1 << 63) + 1, u64::MAX - 1, u64::MAX, rng.next(), rng.next()] {
+		out.line(&format!("tx asi64 {}", x), &format!("{}", x as i64));
+	}
+	out.raw(&format!("#STAT overage: {:?}", stat));
+}
+
+// ---------------------------------------------------------------------------------------------
+// collide: two kernels of ONE block with the same short id under the compact block's nonce (real
+// 48-bit collisions found by `tx findcollision2`), short-id keys for corner nonces, several
+// coinbase items through compact form and hydration
+// ---------------------------------------------------------------------------------------------
+
+/// pairs of fees whose kernels Plain{fee} (default excess / signature) have the same short id under
+/// (BlockHeader::default().hash() on the testing chain, COLLISION_NONCE)
+const BLOCK_COLLISIONS: [(u32, u32); 3] = [(8967272, 12336130), (13126019, 14264626), (3684080, 15970210)];
+
+fn wire_of(header: &BlockHeader, nonce: u64, out_full: &[Output], kern_full: &[TxKernel], sids: &[grin_core::core::ShortId]) -> Vec<u8> {
+	let mut bytes: Vec<u8> = vec![];
+	ser::serialize_default(&mut bytes, header).unwrap();
+	bytes.extend_from_slice(&nonce.to_be_bytes());
+	bytes.extend_from_slice(&(out_full.len() as u64).to_be_bytes());
+	bytes.extend_from_slice(&(kern_full.len() as u64).to_be_bytes());
+	bytes.extend_from_slice(&(sids.len() as u64).to_be_bytes());
+	for o in out_full {
+		ser::serialize_default(&mut bytes, o).unwrap();
+	}
+	for k in kern_full {
+		ser::serialize_default(&mut bytes, k).unwrap();
+	}
+	for s in sids {
+		ser::serialize_default(&mut bytes, s).unwrap();
+	}
+	bytes
+}
+
+fn collide_run(out: &mut Out, rng: &mut Rng, thorough: bool) {
+	use grin_core::core::compact_block::UntrustedCompactBlock;
+	use grin_core::core::TransactionBody;
+	global::set_local_chain_type(ChainTypes::AutomatedTesting);
+	let header = BlockHeader::default();
+	let hh = header.hash();
+	let mut stat: BTreeMap<String, u64> = BTreeMap::new();
+	let kc = ExtKeychain::from_seed(&rng.bytes(32), true).unwrap();
+	let pb = ProofBuilder::new(&kc);
+	let (rout, rkern) = reward::output(&kc, &pb, &ExtKeychain::derive_key_id(3, 9, 0, 0, 0), 0, true).unwrap();
+	let mut case = 0u64;
+	let mut one = |out: &mut Out, stat: &mut BTreeMap<String, u64>, what: &str, kernels: Vec<TxKernel>, nonce: u64| {
+		case += 1;
+		let mut ks = kernels.clone();
+		ks.push(rkern.clone());
+		let body = TransactionBody::init(Inputs::default(), &[rout.clone()], &ks, false).unwrap();
+		let b = Block { header: header.clone(), body };
+		let tx_kernels: Vec<&TxKernel> = b.kernels().iter().filter(|k| !k.is_coinbase()).collect();
+		let mut sids: Vec<grin_core::core::ShortId> = tx_kernels.iter().map(|k| k.short_id(&hh, nonce)).collect();
+		sids.sort();
+		let khs: Vec<String> = tx_kernels.iter().map(|k| hex(k.hash().as_bytes())).collect();
+		// the short ids themselves, recomputed by the model (own blake2b + SipHash-2-4), in wire order
+		out.line(
+			&format!("tx cbids {} {} {} [{}]", case, hex(hh.as_bytes()), nonce, khs.join(",")),
+			&format!("[{}]", sids.iter().map(|s| hex(s.as_ref())).collect::<Vec<_>>().join(",")),
+		);
+		let cb0 = CompactBlock::from(b.clone());
+		let bytes = wire_of(&header, nonce, cb0.out_full(), cb0.kern_full(), &sids);
+		let r1 = catch(std::panic::AssertUnwindSafe(|| ser::deserialize_default::<CompactBlock, _>(&mut &bytes[..])));
+		let r2 = catch(std::panic::AssertUnwindSafe(|| ser::deserialize_default::<UntrustedCompactBlock, _>(&mut &bytes[..])));
+		let show = |ok: bool, err: Option<String>| if ok { "accepted".to_string() } else { format!("refused:{}", err.unwrap_or_default()) };
+		let s1 = match &r1 {
+			Ok(Ok(_)) => show(true, None),
+			Ok(Err(e)) => show(false, Some(format!("{:?}", e).replace(' ', ""))),
+			Err(_) => "panic".to_string(),
+		};
+		let s2 = match &r2 {
+			Ok(Ok(_)) => show(true, None),
+			Ok(Err(e)) => show(false, Some(format!("{:?}", e).replace(' ', ""))),
+			Err(_) => "panic".to_string(),
+		};
+		let short = |s: &str| if s.starts_with("refused") { "refused" } else { s }.to_string();
+		*stat.entry(format!("{}: reader {} / untrusted reader {}", what, s1, s2)).or_insert(0) += 1;
+		// (the untrusted reader also checks the header - no real proof of work here - and refuses
+		// every one of these: it is shown in the #STAT line only)
+		out.line(&format!("tx cbread {} {} {} [{}]", case, hex(hh.as_bytes()), nonce, khs.join(",")), &short(&s1));
+		// in memory nothing reads the ids: the From<Block> compact block hydrates back from the kernels' transactions
+		let txs: Vec<Transaction> = kernels.iter().map(|k| Transaction::empty().with_kernel(k.clone())).collect();
+		let hy = Block::hydrate_from(cb0, &txs);
+		let same = match &hy {
+			Ok(hb) => hb.body == b.body && hb.header.hash() == hh,
+			Err(_) => false,
+		};
+		*stat.entry(format!("{}: hydrate_from(From<Block> form) gives the block: {}", what, same)).or_insert(0) += 1;
+		if !same {
+			out.raw(&format!("#ORACLE-FAIL C12 collide: hydrate_from of the in-memory compact block does not give the block back ({}, nonce {})", what, nonce));
+		}
+	};
+	for (f1, f2) in BLOCK_COLLISIONS.iter() {
+		let (k1, k2) = (fake_kernel(*f1), fake_kernel(*f2));
+		if k1.short_id(&hh, COLLISION_NONCE) != k2.short_id(&hh, COLLISION_NONCE) {
+			out.raw(&format!("#STAT collide: precomputed pair {} / {} does not collide any more (header encoding changed?) - rerun `tx findcollision2`", f1, f2));
+			continue;
+		}
+		// the two colliding kernels alone, with bystanders, and under another nonce (no collision there)
+		one(out, &mut stat, "colliding pair", vec![k1.clone(), k2.clone()], COLLISION_NONCE);
+		one(out, &mut stat, "colliding pair among others", vec![fake_kernel(11), k1.clone(), fake_kernel(12), k2.clone(), fake_kernel(13)], COLLISION_NONCE);
+		one(out, &mut stat, "same pair, other nonce", vec![k1.clone(), k2.clone()], COLLISION_NONCE + 1);
+		one(out, &mut stat, "one of the pair", vec![k1.clone(), fake_kernel(14)], COLLISION_NONCE);
+	}
+	// short-id keys for corner nonces and random ones
+	let mut nonces: Vec<u64> = vec![0, 1, 2, 255, 256, (1 << 32) - 1, 1 << 32, (1 << 63) - 1, 1 << 63, u64::MAX - 1, u64::MAX];
+	for _ in 0..(if thorough { 300 } else { 40 }) {
+		nonces.push(rng.next());
+	}
+	for n in nonces {
+		let nk = rng.range(1, 6) as u32;
+		let ks: Vec<TxKernel> = (0..nk).map(|i| fake_kernel(100 + i + (rng.below(1 << 20) as u32))).collect();
+		one(out, &mut stat, "nonce sweep", ks, n);
+	}
+	// several coinbase items: two reward outputs and two reward kernels in one block
+	{
+		let (rout2, rkern2) = reward::output(&kc, &pb, &ExtKeychain::derive_key_id(3, 9, 1, 0, 0), 0, true).unwrap();
+		for nk in 0..3u32 {
+			let ks: Vec<TxKernel> = (0..nk).map(|i| fake_kernel(500 + i)).collect();
+			let mut all = ks.clone();
+			all.push(rkern.clone());
+			all.push(rkern2.clone());
+			let body = TransactionBody::init(Inputs::default(), &[rout.clone(), rout2.clone()], &all, false).unwrap();
+			let b = Block { header: header.clone(), body };
+			let cb = CompactBlock::from(b.clone());
+			let txs: Vec<Transaction> = ks.iter().map(|k| Transaction::empty().with_kernel(k.clone())).collect();
+			let wire_ok = wire_roundtrip(&cb).is_ok();
+			let same = match Block::hydrate_from(cb.clone(), &txs) {
+				Ok(hb) => hb.body == b.body,
+				Err(_) => false,
+			};
+			let line = format!("{} {} {} {} {}", cb.out_full().len(), cb.kern_full().len(), cb.kern_ids().len(), wire_ok, same);
+			*stat.entry(format!("two coinbase outputs and kernels, {} tx kernels: out_full kern_full kern_ids wire hydrated-same = {}", nk, line)).or_insert(0) += 1;
+			out.line(&format!("tx cbtwo {}", nk), &line);
+			if !same || !wire_ok {
+				out.raw(&format!("#ORACLE-FAIL C12 collide: a block with two coinbase outputs / kernels and {} transaction kernels does not survive compact form + hydration", nk));
+			}
+		}
+	}
+	out.raw(&format!("#STAT collide: {:?}", stat));
+}
+
 fn collision_hash() -> Hash {
 	Hash::from_vec(&[0x11u8; 32])
 }
@@ -2267,7 +2478,34 @@ fn find_collision(n: u32) {
 	println!("searched {} kernels", n);
 }
 
+/// diagnostic (argv[1] = findcollision2): the same search under the hash of the header the `collide`
+/// run uses (BlockHeader::default() on the testing chain)
+fn find_collision2(n: u32) {
+	global::set_local_chain_type(ChainTypes::AutomatedTesting);
+	let h = BlockHeader::default().hash();
+	println!("header hash {}", hex(h.as_bytes()));
+	let mut ids: Vec<(u64, u32)> = Vec::with_capacity(n as usize);
+	for fee in 1..=n {
+		let sid = fake_kernel(fee).short_id(&h, COLLISION_NONCE);
+		let mut b = [0u8; 8];
+		b[..6].copy_from_slice(sid.as_ref());
+		ids.push((u64::from_le_bytes(b), fee));
+	}
+	ids.sort_unstable();
+	for wdw in ids.windows(2) {
+		if wdw[0].0 == wdw[1].0 {
+			println!("collision: short id {:012x} fees {} {}", wdw[0].0, wdw[0].1, wdw[1].1);
+		}
+	}
+	println!("searched {} kernels", n);
+}
+
 fn main() {
+	if std::env::args().nth(1).as_deref() == Some("findcollision2") {
+		let n: u32 = std::env::args().nth(2).and_then(|x| x.parse().ok()).unwrap_or(1 << 25);
+		find_collision2(n);
+		return;
+	}
 	if std::env::args().nth(1).as_deref() == Some("findcollision") {
 		let n: u32 = std::env::args().nth(2).and_then(|x| x.parse().ok()).unwrap_or(1 << 25);
 		find_collision(n);
@@ -2282,6 +2520,14 @@ fn main() {
 	let seed = seed_from_env();
 	let mut rng = Rng::new(seed);
 	let mut out = Out::stdout();
+	if std::env::args().nth(1).as_deref() == Some("collide") {
+		collide_run(&mut out, &mut rng, thorough);
+		return;
+	}
+	if std::env::args().nth(1).as_deref() == Some("overage") {
+		overage_run(&mut out, &mut rng, thorough);
+		return;
+	}
 	let kseed = rng.bytes(32);
 	let kc = ExtKeychain::from_seed(&kseed, false).unwrap();
 	let pb = ProofBuilder::new(&kc);
